@@ -8,12 +8,19 @@ package prefix
 // anything that is not a TCP address is refused. What "contains" means is package net's.
 //@ func (p *Provider) Get(ctx context.Context, remote net.Addr) (secret []byte, handler tq.Handler, err error)
 //@   ghostset anyMatch 0
+//@   ghostset parsedOK 0
+//@   ghostset contCalls 0
 //@   requires p != nil && p.loggerProvider != nil
 //@   requires forall k int :: has(p.secrets, k) ==> p.secrets[k].secret != nil
-//@   modifies ghost.anyMatch
+//@   modifies ghost.anyMatch, ghost.parsedOK, ghost.contCalls, ghost.lastNet
+//@   after[C13] net.ParseCIDR : ghost.parsedOK = ghost.parsedOK + (ret2 == nil ? 1 : 0)
+//@   after[C13] net.ParseCIDR : ghost.lastNet = ret1
+//@   after[C13] IPNet.Contains : ghost.contCalls = ghost.contCalls + 1
 //@   after[C13] IPNet.Contains : ghost.anyMatch = (ret0 ? 1 : ghost.anyMatch)
+//@   before[C13] IPNet.Contains : arg0 == ghost.lastNet && arg1 == remote.(*net.TCPAddr).IP
+//@   ensures[C13] ghost.anyMatch == 0 ==> ghost.contCalls == ghost.parsedOK
 //@   ensures[C13] (remote == nil || typeOf(remote) != *net.TCPAddr) ==> (err != nil && secret == nil && handler == nil)
 //@   ensures[C13] ghost.anyMatch == 0 ==> (err != nil && secret == nil && handler == nil)
 //@   ensures[C13] ghost.anyMatch == 1 ==> handler != nil
 //@   loop 1 invariant 0 <= rangecount
-//@   loop 1 invariant[C13] ghost.anyMatch == 0
+//@   loop 1 invariant[C13] ghost.anyMatch == 0 && ghost.contCalls == ghost.parsedOK
